@@ -100,6 +100,41 @@ class Contract(Part):
                 emit(x, "near-optimum")
         if group == "samples":
             self.samples(ctx, emit, rng, bounds, mid)
+            # points with REPEATED coordinate values (diagonals, and the optimum with its tail overwritten by one of its own coordinate
+            # values): separable sums are easily mis-indexed when equal values meet
+            for c in ([mid[0]] + [b for b in bounds[0]]):
+                if all(b[0] <= c <= b[1] for b in bounds):
+                    emit([c] * n, "diagonal")
+            if n >= 3 and case["fn"] != "XinSheYang3" and len({tuple(b) for b in bounds}) == 1:
+                # two-parameter family x = (a, c, c, ..., c): grid, then a bounded 2-D refinement from the best grid points
+                from scipy.optimize import minimize as _min
+                lo, hi = bounds[0]
+                sign = 1.0 if direction == "min" else -1.0
+
+                def g(ac):
+                    a, c = min(hi, max(lo, float(ac[0]))), min(hi, max(lo, float(ac[1])))
+                    try:
+                        v = float(value([a] + [c] * (n - 1))[0])
+                    except Exception:      # noqa
+                        return 1e30
+                    return sign * v if math.isfinite(v) else 1e30
+                grid = [lo + (hi - lo) * k / 24.0 for k in range(25)]
+                scored = sorted(((g((a, c)), a, c) for a in grid for c in grid))[:3]
+                for _, a, c in scored:
+                    try:
+                        r = _min(g, [a, c], method="Nelder-Mead", options={"maxiter": 80, "xatol": 1e-6, "fatol": 1e-9})
+                        a2, c2 = min(hi, max(lo, float(r.x[0]))), min(hi, max(lo, float(r.x[1])))
+                    except Exception:      # noqa
+                        a2, c2 = a, c
+                    emit([a2] + [c2] * (n - 1), "structured-search")
+            if coords is not None and len(coords) == n and n >= 2:
+                fam = [(j, c) for j in range(1, n) for c in sorted(set(coords))]
+                if ctx.quick and len(fam) > 40:
+                    fam = rng.sample(fam, 40)
+                for j, c in fam:
+                    x = list(coords[:j]) + [c] * (n - j)
+                    if all(b[0] <= v <= b[1] for v, b in zip(x, bounds)):
+                        emit(x, "recombined")
         if group == "search" and case["fn"] == "XinSheYang3":
             raise Skip()
         if group == "search":
